@@ -185,6 +185,10 @@ class LDMService:
         current_time = TimestampIts.initialize_with_utc_timestamp_seconds()
         notify_time = subscription.subscription_request.notify_time
         with self._lock:
+            # The decision is taken in the same locked section as the membership test: a subscription removed by
+            # another thread after the test of attend_subscription is not notified (and gets no new record).
+            if subscription not in self.subscriptions:
+                return
             last_checked = self.last_checked_subscriptions_time.get(subscription)
             if last_checked is None:
                 self.last_checked_subscriptions_time[subscription] = current_time
